@@ -936,3 +936,55 @@ def _(ctx):
                    model={'file': b[1], 'variant': b[2]})
     ctx.record('', PROVED, 'bounded', 0, 'BOUNDED: %d inputs with a foreign block run, %d with a different result%s' % (n, len(bad), ' (separate goals)' if bad else ''),
                solver='native execution of the real program', kind='bounded')
+
+# ------------------------------------------------------------------------------------------------ the look-up predicates of src/slhaea.h under a delegation contract
+@obligation('C13.slhaea.lookup_predicates', fns=[('src/slhaea.h', 'Coll::key_matches::operator()'), ('src/slhaea.h', 'Block::key_matches::parts_equal')])
+def _(ctx):
+    """the two predicates through which every block and every line is found, extracted from src/slhaea.h on this run: Coll::key_matches(name)(block) IS
+    boost::iequals(name, block.name()) and Block::key_matches::parts_equal(key_part, field) IS key_part == "(any)" || boost::iequals(key_part, field), for opaque
+    string tokens; boost::iequals itself (case-insensitive equality of the WHOLE strings) is trusted (A-BOOST)"""
+    import os
+    from gm2v import cxx
+    from gm2v.values import Obj
+    u = cxx.parse_file(os.path.join(ctx.w.repo, 'src/slhaea.h'))
+    ops = [f for f in u.funcs if f.qname.endswith('key_matches::operator()') and f.params and f.params[0].name == 'block']
+    pes = [f for f in u.funcs if f.qname.endswith('key_matches::parts_equal')]
+    if len(ops) != 1 or len(pes) != 1:
+        ctx.record('', ERROR, 'B', 0, 'extraction: %d block predicates, %d parts_equal in src/slhaea.h' % (len(ops), len(pes)))
+        return
+    class Tok(str):
+        pass
+    for tag, fd, mk in (('block', ops[0], None), ('line_part', pes[0], None)):
+        calls = []
+        it = Interp(ctx.w, mode='float')
+        marker = object()
+        def ieq(i, ar, t, calls=calls):
+            calls.append(tuple(ar))
+            return len(ar) == 2 and str(ar[0]).lower() == str(ar[1]).lower()
+        it.stubs.update({'boost::iequals': ieq})
+        ok, det = True, []
+        for a, b in (('MASS', 'mass'), ('MASS', 'MASSX'), ('MASSX', 'MASS'), ('', 'MASS'), ('MASS', ''), ('Mass', 'MASt'), ('(any)', 'zz'), ('zz', '(any)'), ('6', '60'), ('60', '6')):
+            del calls[:]
+            try:
+                if tag == 'block':
+                    class Blk(PyModel):
+                        def m_name(self, it_, b=b):
+                            return b
+                    r = it.invoke(fd, [Blk()], Obj('key_matches', {'name_': a}))
+                    want = a.lower() == b.lower()
+                else:
+                    r = it.invoke(fd, [a, b], None)
+                    want = a == '(any)' or a.lower() == b.lower()
+            except EvalError as e:
+                ctx.record(tag, ERROR, 'B', 0, 'extraction / interpretation of %s: %s' % (fd.qname, e))
+                ok = None
+                break
+            deleg = all(set(map(str, c)) == {a, b} or (a == b and list(map(str, c)) == [a, b]) for c in calls)
+            if bool(r) != want or not deleg or (not calls and not (tag == 'line_part' and a == '(any)')):
+                ok = False
+                det.append('(%r, %r) -> %r, iequals calls %s' % (a, b, r, calls))
+        if ok is None:
+            continue
+        ctx.record(tag, PROVED if ok else FAILED, 'B', 0, ('%s delegates to boost::iequals on the two whole strings' % fd.qname) if ok else 'not the documented predicate: ' + '; '.join(det[:3]),
+                   solver='interpretation of the extracted predicate, boost::iequals trusted')
+    ctx.assume_note('A-BOOST: boost::iequals(a, b) is case-insensitive equality of the whole strings; std::find_if / std::equal by their standard contracts')
